@@ -365,3 +365,9 @@ _amend("C10", "text", "(R10.1-R10.12,", "(R10.1-R10.15,")
 _amend("C10", "text", "Decides twelve structural clauses", "Decides fifteen structural clauses")
 _amend("C10", "text", "Absence of panics and linear time in general are NOT decided.", "Temporary files are removed before the function that made them returns; the HTML minifier re-enters itself for iframe content only behind a depth bound; look-ahead loops with a growing index end at the error token. Absence of panics and linear time in general are NOT decided.")
 _amend("C17", "text", "is built from len(value) and Traits&booleanAttr only).", "is built from len(value) and Traits&booleanAttr only), and the token slots that carry the traits to the minifier are fully rewritten by TokenBuffer.read on every path (R17.tokentraits = clause (f) of the token buffer rule): a text, svg or math token never inherits the traits of the tag that used its slot before.")
+_amend("C09", "text", "(R09.1, R09.3-R09.18, DESIGN.md §4 C09;", "(R09.1, R09.3-R09.20, DESIGN.md §4 C09;")
+_amend("C06", "text", "Decides (R06.1-R06.9, DESIGN.md §4 C06):", "Decides (R06.1-R06.10, DESIGN.md §4 C06):")
+_amend("C06", "text", "CDATA byte round trips and white space inside PI content are not decided.", "The quoted words of a processing instruction are not entity-decoded. CDATA byte round trips and white space inside PI content are not decided.")
+_amend("C03", "text", "Decides seventeen local clauses (R03.1-R03.17 incl. R03.5c-f,", "Decides eighteen local clauses (R03.1-R03.18 incl. R03.5c-f,")
+_amend("C04", "text", "(R04.1-R04.17, DESIGN.md §4 C04;", "(R04.1-R04.18, DESIGN.md §4 C04;")
+_amend("C04", "text", "Decides seventeen structural clauses only", "Decides eighteen structural clauses only")
